@@ -278,6 +278,12 @@ fn judge(case: &Case, o: &Observed) -> Result<(), (String, String)> {
           return Err((format!("never-ran:{name}"), format!("task {i} was never cancelled, every timer was fired and every ready task run, but its body never ran")));
         }
         if matches!(spec.kind, TKind::OnceSub) {
+          // "a handle reports closed only when its task can no longer act": is_closed() is only sampled on handles
+          // that were not cancelled, and the product of the task is a subscription that never closes by itself -
+          // whatever the task made can still act, so the handle may not report closed
+          if let Some(cs) = o.closed_true_at[i] {
+            return Err((format!("closed-while-product-open:{name}"), format!("subscribing task {i}: is_closed() returned true during step {cs} although the handle was never unsubscribed and the subscription the task produced is still open")));
+          }
           let expect = if o.cancelled_at[i].is_some() && !runs.is_empty() { 1 } else { 0 };
           // (cancelled before it ran: no product; never cancelled: product stays subscribed)
           if o.product_unsubs[i] != expect {
